@@ -1,7 +1,7 @@
 (** * EndToEndProofs — C01: a proxy call is transparent (for all registered functions, names,
     JSON arguments that bind, versions and class-translation settings) *)
 From Coq Require Import List ZArith String Bool Lia.
-From JR Require Import Val PyOps Payload Client Dispatch EndToEnd.
+From JR Require Import Val PyOps Payload Client Dispatch DispatchProofs EndToEnd.
 Import ListNotations.
 Open Scope string_scope.
 
@@ -417,3 +417,212 @@ Section Sequence.
       rewrite A, B. unfold add_response, add_request. cbn [h_requests h_responses]. rewrite !app_length. cbn [length]. lia.
   Qed.
 End Sequence.
+
+(** ** MultiCall batches *)
+
+Section Batch.
+  Variable body : cid -> val -> outcome.
+  Variable sigs : cid -> signature.
+  Variable fresh : nat -> str.
+  Variable dv : val.
+  Hypothesis fresh_nonempty : forall n, fresh n <> "".
+
+  (** MultiCallMethod.request(): always written in 2.0 form, whatever the configurations say *)
+  Lemma job_request_value : forall mcfg m a notify n,
+    args_json a = true ->
+    job_request fresh dv mcfg (mkJob m a notify) n
+    = Ok ((if notify then notify_value true m a else request_value true m a (fresh n)), S n).
+  Proof.
+    intros [mv mjc] m a notify n Ha.
+    destruct a as [[|x l]|[|kv mm]]; destruct notify; destruct mjc.
+    all: cbn [args_json] in Ha.
+    all: unfold job_request, job_params, j_args, j_method, j_notify, Payload.dump, dump_plan, two_point_zero.
+    all: cbn [truthy pc_version pc_jsonclass valid_params is_string negb andb orb notify_value request_value entered].
+    all: unfold jc.
+    all: try (rewrite convert_dumpable
+                by first [apply is_json_dumpable; exact Ha | cbn [dumpable]; apply dumpable_list_json; exact Ha | reflexivity]).
+    all: try (assert (Hnd : norm (VDict (kv :: mm)) = VDict (kv :: mm)) by (apply norm_json; exact Ha); rewrite ?Hnd).
+    all: try (cbn [norm]; rewrite ?(norm_list_json _ Ha)).
+    all: cbn -[norm convert dumpable wire].
+    all: unfold wire.
+    all: rewrite !dumpable_dict_cons, ?dumpable_dict_nil.
+    all: try (assert (Hd1 : dumpable (VList (x :: l)) = true) by (cbn [dumpable]; apply dumpable_list_json; exact Ha);
+              assert (Hd2 : dumpable (VTuple (x :: l)) = true) by (cbn [dumpable]; apply dumpable_list_json; exact Ha);
+              rewrite ?Hd1, ?Hd2).
+    all: try (rewrite (is_json_dumpable _ Ha)).
+    all: cbn [dumpable andb bind].
+    all: try reflexivity.
+    all: f_equal; f_equal; cbn [norm map fst snd].
+    all: try (change (norm x :: map norm l) with (map norm (x :: l)); rewrite (norm_list_json _ Ha)).
+    all: try (cbn [norm map fst snd] in Hnd; rewrite Hnd).
+    all: reflexivity.
+  Qed.
+
+  (** the server's answer to one 2.0 entry *)
+  Lemma server_call : forall srvf reg pool sjc m f a id v,
+    m <> "" -> id <> "" -> lookup m (r_funcs reg) = Some f -> args_json a = true ->
+    call_binds (sigs f) (entered a) = true -> body f (entered a) = Return v -> dumpable v = true ->
+    answer_entry body sigs srvf (mkSrv reg pool sjc) None (request_value true m a id)
+    = (Some (resp_obj srvf (VStr id) (if sjc then norm v else v)), [EvCall f (entered a)]).
+  Proof.
+    intros srvf reg pool sjc m f a id v Hm Hid Hf Ha Hb Hbody Hv.
+    assert (Hme : String.eqb m "" = false) by (apply String.eqb_neq; exact Hm).
+    assert (Hie : String.eqb id "" = false) by (apply String.eqb_neq; exact Hid).
+    pose proof (convert_dumpable _ Hv) as Hcv.
+    assert (HPc : is_param_container (entered a) = true) by (destruct a as [[|x l]|[|kv mm]]; reflexivity).
+    assert (HPd : dumpable (entered a) = true).
+    { destruct a as [[|x l]|[|kv mm]]; cbn [entered args_json] in *; try reflexivity.
+      - cbn [dumpable]. apply dumpable_list_json; exact Ha.
+      - apply is_json_dumpable; exact Ha. }
+    remember (entered a) as P eqn:EP.
+    assert (Hreq : request_value true m a id
+                   = VDict ([(VStr "id", VStr id); (VStr "method", VStr m)]
+                            ++ (match a with Positional [] | Keyword [] => [] | _ => [(VStr "params", P)] end)
+                            ++ [(VStr "jsonrpc", VStr "2.0")])).
+    { subst P. destruct a as [[|x l]|[|kv mm]]; reflexivity. }
+    rewrite Hreq. clear Hreq.
+    assert (HP' : match a with Positional [] | Keyword [] => P = VList [] | _ => True end)
+      by (subst P; destruct a as [[|x l]|[|kv mm]]; exact I || reflexivity).
+    destruct srvf; destruct sjc; destruct a as [[|x l]|[|kv mm]]; try (rewrite HP' in * ); cbn [app].
+    all: cbn in Hb.
+    all: repeat (progress (unfold answer_entry, validate_request, single_dispatch, single_dispatch_with, run_target, dispatch, call_func,
+                                  request_form, request_id, is_notification, has_version;
+                           cbn; rewrite ?Hme, ?Hie, ?Hf, ?Hb, ?Hbody, ?Hcv, ?HPc, ?HPd, ?Hv)).
+    all: reflexivity.
+  Qed.
+
+  Definition notify_event (pool : bool) (srvf : form) (m : str) (f : cid) (a : call_args) : event :=
+    if pool then EvEnqueue None m (entered a) (Some srvf) else EvCall f (entered a).
+
+  Lemma server_notify : forall srvf reg pool sjc m f a,
+    m <> "" -> lookup m (r_funcs reg) = Some f -> args_json a = true ->
+    call_binds (sigs f) (entered a) = true ->
+    answer_entry body sigs srvf (mkSrv reg pool sjc) None (notify_value true m a)
+    = (None, [notify_event pool srvf m f a]).
+  Proof.
+    intros srvf reg pool sjc m f a Hm Hf Ha Hb.
+    assert (Hme : String.eqb m "" = false) by (apply String.eqb_neq; exact Hm).
+    assert (HPc : is_param_container (entered a) = true) by (destruct a as [[|x l]|[|kv mm]]; reflexivity).
+    remember (entered a) as P eqn:EP.
+    assert (Hreq : notify_value true m a
+                   = VDict ([(VStr "method", VStr m)]
+                            ++ (match a with Positional [] | Keyword [] => [] | _ => [(VStr "params", P)] end)
+                            ++ [(VStr "jsonrpc", VStr "2.0")])).
+    { subst P. destruct a as [[|x l]|[|kv mm]]; reflexivity. }
+    rewrite Hreq. clear Hreq. unfold notify_event. rewrite <- EP.
+    assert (HP' : match a with Positional [] | Keyword [] => P = VList [] | _ => True end)
+      by (subst P; destruct a as [[|x l]|[|kv mm]]; exact I || reflexivity).
+    destruct srvf; destruct pool; destruct a as [[|x l]|[|kv mm]]; try (rewrite HP' in * ); cbn [app].
+    all: cbn in Hb.
+    all: repeat (progress (unfold answer_entry, validate_request, single_dispatch, single_dispatch_with, run_target, dispatch, call_func,
+                                  request_form, request_id, is_notification, has_version;
+                           cbn; rewrite ?Hme, ?Hf, ?Hb, ?HPc)).
+    all: try reflexivity.
+    all: destruct (body f _) as [v|cls msg|msg|code msg]; try reflexivity.
+    all: destruct (String.eqb cls "TypeError"); cbn; try reflexivity.
+    all: destruct (convert v); reflexivity.
+  Qed.
+
+  (** the client's reading of one response object *)
+  Lemma client_result : forall fm id r, dumpable r = true ->
+    proxy_result (norm (resp_obj fm (VStr id) r)) = Ok (norm r).
+  Proof.
+    intros fm id r Hr. destruct fm; cbn; reflexivity.
+  Qed.
+
+  (** *** the whole batch *)
+  Record job_spec := mkJS { js_job : job; js_f : cid; js_v : val }.
+
+  Variable srvf : form.
+  Variable reg : registry.
+  Variable pool sjc : bool.
+  Let srv := mkSrv reg pool sjc.
+
+  Definition good_job (s : job_spec) : Prop :=
+    let j := js_job s in
+    j_method j <> "" /\ lookup (j_method j) (r_funcs reg) = Some (js_f s) /\ args_json (j_args j) = true /\
+    call_binds (sigs (js_f s)) (entered (j_args j)) = true /\
+    (j_notify j = false -> body (js_f s) (entered (j_args j)) = Return (js_v s) /\ dumpable (js_v s) = true).
+
+  Fixpoint job_values (js : list job_spec) (n : nat) : list val :=
+    match js with
+    | [] => []
+    | s :: r =>
+        let j := js_job s in
+        (if j_notify j then notify_value true (j_method j) (j_args j)
+         else request_value true (j_method j) (j_args j) (fresh n)) :: job_values r (S n)
+    end.
+
+  Fixpoint job_responses (js : list job_spec) (n : nat) : list val :=
+    match js with
+    | [] => []
+    | s :: r =>
+        ((if j_notify (js_job s) then []
+          else [resp_obj srvf (VStr (fresh n)) (if sjc then norm (js_v s) else js_v s)]) ++ job_responses r (S n))%list
+    end.
+
+  Definition job_event (s : job_spec) : event :=
+    let j := js_job s in
+    if j_notify j then notify_event pool srvf (j_method j) (js_f s) (j_args j) else EvCall (js_f s) (entered (j_args j)).
+
+  Definition job_results (js : list job_spec) : list (res val) :=
+    map (fun s => Ok (norm (js_v s))) (filter (fun s => negb (j_notify (js_job s))) js).
+
+  Lemma batch_requests : forall mcfg js n, Forall good_job js ->
+    jobs_requests fresh dv mcfg (map js_job js) n = Ok (job_values js n, (n + length js)%nat).
+  Proof.
+    intros mcfg js n Hg. revert n. induction Hg as [|s r (H1 & H2 & H3 & H4 & H5) Hr IH]; intros n.
+    - cbn. rewrite Nat.add_0_r. reflexivity.
+    - cbn [map jobs_requests job_values length]. destruct (js_job s) as [m a nt] eqn:Ej. cbn [j_method j_args j_notify] in *.
+      rewrite job_request_value by exact H3. cbn [bind]. rewrite IH. cbn [bind]. rewrite Nat.add_succ_r. reflexivity.
+  Qed.
+
+  Lemma batch_server : forall js n, Forall good_job js ->
+    batch body sigs srvf srv None (job_values js n) = (job_responses js n, map job_event js).
+  Proof.
+    intros js n Hg. revert n. induction Hg as [|s r (H1 & H2 & H3 & H4 & H5) Hr IH]; intros n; [reflexivity|].
+    cbn [job_values batch job_responses map]. unfold job_event at 1. destruct (js_job s) as [m a nt] eqn:Ej.
+    cbn [j_method j_args j_notify] in *. unfold srv in *. destruct nt.
+    - rewrite (server_notify srvf reg pool sjc m (js_f s) a) by assumption. rewrite IH. reflexivity.
+    - destruct (H5 eq_refl) as (Hb & Hv). rewrite (server_call srvf reg pool sjc m (js_f s) a (fresh n) (js_v s)); auto.
+      rewrite IH. reflexivity.
+  Qed.
+
+  Lemma batch_dumpable : forall js n, Forall good_job js -> forallb dumpable (job_responses js n) = true.
+  Proof.
+    intros js n Hg. revert n. induction Hg as [|s r (H1 & H2 & H3 & H4 & H5) Hr IH]; intros n; [reflexivity|].
+    cbn [job_responses]. rewrite forallb_app, IH, andb_true_r. destruct (j_notify (js_job s)); [reflexivity|].
+    destruct (H5 eq_refl) as (_ & Hv). cbn [forallb]. rewrite andb_true_r. apply dumpable_resp_obj; [reflexivity|].
+    destruct sjc; [apply dumpable_norm|]; exact Hv.
+  Qed.
+
+  Lemma batch_client : forall js n, Forall good_job js ->
+    multicall_iter (map norm (job_responses js n)) = job_results js.
+  Proof.
+    intros js n Hg. revert n. induction Hg as [|s r (H1 & H2 & H3 & H4 & H5) Hr IH]; intros n; [reflexivity|].
+    cbn [job_responses]. unfold job_results. cbn [filter]. destruct (j_notify (js_job s)); cbn [negb app map]; [apply IH|].
+    destruct (H5 eq_refl) as (_ & Hv). cbn [multicall_iter].
+    rewrite client_result by (destruct sjc; [apply dumpable_norm|]; exact Hv).
+    fold (job_results r). rewrite IH. destruct sjc; [rewrite norm_idem|]; reflexivity.
+  Qed.
+
+  Theorem batch_call : forall c mcfg js n h,
+    js <> [] -> Forall good_job js ->
+    multicall body sigs fresh dv srvf srv None c mcfg (map js_job js) n h
+    = (Some (Ok (job_results js)), map job_event js,
+       add_response (add_request h (VList (job_values js n)))
+                    (match job_responses js n with [] => None | os => Some (VList (map norm os)) end),
+       (n + length js)%nat).
+  Proof.
+    intros c mcfg js n h Hne Hg. unfold multicall.
+    destruct (map js_job js) eqn:Em; [destruct js; [contradiction|discriminate]|]. rewrite <- Em. clear Em.
+    rewrite batch_requests by exact Hg.
+    unfold run_request, marshaled_dispatch, loads_m, unmarshaled_dispatch.
+    assert (Ht : truthy (VList (job_values js n)) = true) by (destruct js; [contradiction|reflexivity]).
+    rewrite Ht. cbn [negb]. rewrite batch_server by exact Hg.
+    pose proof (batch_dumpable js n Hg) as Hd. pose proof (batch_client js n Hg) as Hc.
+    destruct (job_responses js n) as [|o os] eqn:Er.
+    - cbn. cbn in Hc. rewrite <- Hc. reflexivity.
+    - rewrite Hd. cbn [reply_value]. unfold load, jl. destruct (pc_jsonclass (cl_cfg c)); rewrite Hc; reflexivity.
+  Qed.
+End Batch.
